@@ -10,27 +10,31 @@ again."
 
 FULL STATEMENT: the trace monitor `monC08` (Monitors.lean) with ghost obligations `(M, t, m, held, fresh)`
 accepts every step of every history of every layout — `C08_statement`.  It is FALSE of the model and
-of the code for layouts outside H1 ∧ H2 (known findings D6, D7: `C08_counterexample_D6`,
-`C08_counterexample_D7`, kernel-checked).
+of the code for layouts outside H2 (known finding D6: `C08_counterexample_D6`, kernel-checked).
 
-  H1: a mapping that is not key-producing (its output is empty or ends in a modifier) outputs modifiers
-      only — implied by "all output keys before the last are modifiers" (`H1_of_canonical`), and exactly the
-      negation of what finding D7 needs;
   H2: every mapping with a non-empty absorbing list is key-producing (its last output key is a
       non-modifier).
+  H1 (NO LONGER A HYPOTHESIS since the fix of finding D7; still defined and reported by the driver request
+      `H12`): a mapping that is not key-producing (its output is empty or ends in a modifier) outputs modifiers
+      only — implied by "all output keys before the last are modifiers" (`H1_of_canonical`), and exactly the
+      negation of what finding D7 needed.  D7 was: `add_new_mapping` entered its "release action mappings /
+      release absorbed keys" block only `if is_action_mapping(m)` (last output key a non-modifier); the fix
+      enters it `if produces_action_key(m)` (any output key a non-modifier).  `C08_d7_fixed` replays the former
+      counterexample: the monitor accepts, the absorbed key is released before Z goes down.
 All built-in layouts, README examples and unit-test layouts satisfy H1 ∧ H2.
 
-PROVED (`C08_partial`): for EVERY layout satisfying H1 ∧ H2, every history and every step, the monitor
-accepts — i.e. the full statement restricted to those layouts.  Its three clauses:
+PROVED (`C08_partial'`): for EVERY layout satisfying H2, every history and every step, the monitor
+accepts — i.e. the full statement restricted to those layouts (`C08_partial`, `C08_partial_ii`: the same
+with the former signatures, H1 ignored).  Its three clauses:
   (i)   `C08_partial_i` (H2): while an obligation (M, t) is pending, no accepted press of a key other
         than t fires a mapping that has M in its trigger; via the invariant `OblInv`: a pending
         obligation's M is still absorbed with absorbing_trigger = t, or is no longer an input key;
-  (ii)  `C08_partial_ii` (H1 ∧ H2): at every press of a non-modifier key by such a step M is not down on
+  (ii)  `C08_partial_ii'` (H2): at every press of a non-modifier key by such a step M is not down on
         the virtual keyboard, unless a mapping in effect after the step outputs M;
   (iii) `C08_partial_iii` (H2): re-pressing t before any other key with the same keys held fires the
         same mapping; via the invariant `FreshInv`: while the held set is the one of the firing,
         absorbing_trigger = t and the selection predicate of a re-press is the one of the firing.
-Outside H1 ∧ H2 the monitor evaluates the clauses on every implementation transition.
+Outside H2 the monitor evaluates the clauses on every implementation transition.
 -/
 import TmVerif.Proofs.Inert
 
@@ -115,14 +119,16 @@ def OblInv (y : Sys8) : Prop := ∀ ob, ob ∈ y.obls → OblOk y.x.s ob
 
 /-! ### what an accepted press does to the auxiliary fields -/
 
+/-- (restated with the fix of D7: the block of phase 2 runs when `producesActionKey m`, it was
+`isActionMapping m`) -/
 theorem addPhase2_aux_fields {extra : List Key} (s : State) (k : Key) (m : Mapping) (h : IInv extra s) :
-    (isActionMapping m = true ∧ shouldAbsorb s k = true ∧
+    (producesActionKey m = true ∧ shouldAbsorb s k = true ∧
       (addPhase2 s k m).1.absorbed = [] ∧ (addPhase2 s k m).1.absTrig = none ∧
       (∀ x, x ∈ (addPhase2 s k m).1.inp ↔ x ∈ s.inp ∧ x ∉ s.absorbed)) ∨
-    (¬(isActionMapping m = true ∧ shouldAbsorb s k = true) ∧
+    (¬(producesActionKey m = true ∧ shouldAbsorb s k = true) ∧
       (addPhase2 s k m).1.absorbed = s.absorbed ∧ (addPhase2 s k m).1.absTrig = s.absTrig ∧
       (addPhase2 s k m).1.inp = s.inp) := by
-  cases ha : isActionMapping m
+  cases ha : producesActionKey m
   · right; rw [addPhase2_nonaction s k m ha]; exact ⟨by simp, rfl, rfl, rfl⟩
   · have f := releaseActionMappings_frame s
     cases hb : shouldAbsorb s k
@@ -232,7 +238,7 @@ theorem OblOk.step {L : Layout} (h2 : H2 L) {P : List Key} {s : State} (hinv : I
                 have hsa : shouldAbsorb (afterConsume (pressPrep s k) fm) k = false := by
                   cases hh : shouldAbsorb (afterConsume (pressPrep s k) fm) k with
                   | false => rfl
-                  | true => exact absurd ⟨hact, hh⟩ hnot
+                  | true => exact absurd ⟨producesActionKey_of_isActionMapping fm hact, hh⟩ hnot
                 have : (afterConsume (pressPrep s k) fm).absTrig = some k := by
                   simp only [shouldAbsorb] at hsa
                   cases hat : (afterConsume (pressPrep s k) fm).absTrig with
@@ -396,7 +402,7 @@ theorem C08_partial_i_monitor (L : Layout) (h2 : H2 L) (y : Sys8) (hy : Reachabl
     have := C08_partial_i L h2 y hy ob hob k hk hkt hkM fm hf
     simpa using this
 
-/-! ### clause (ii) under H1 ∧ H2 -/
+/-! ### clause (ii) under H2 (since the fix of D7; it needed H1 ∧ H2 before) -/
 
 theorem noMAtPresses_append (M : Key) (V : List Key) (outM : Bool) (a b : List Event) :
     noMAtPresses M V outM (a ++ b) = (noMAtPresses M V outM a && noMAtPresses M (foldEvs V a) outM b) := by
@@ -488,10 +494,13 @@ theorem pressAll_noM {extra : List Key} (M : Key) (outM : Bool) (s : State) (ks 
       · exact hks (by simp [h2])
     · intro hm; exact hks (by simp [hm])
 
-/-- C08 clause (ii), for every layout satisfying H1 ∧ H2, every history, every pending obligation (M, t):
+/-- C08 clause (ii), for every layout satisfying H2, every history, every pending obligation (M, t):
 in a step about another key, whenever a non-modifier key is pressed on the virtual keyboard, M is not
-down there — unless a mapping in effect after the step outputs M -/
-theorem C08_partial_ii (L : Layout) (h1 : H1 L) (h2 : H2 L) (y : Sys8) (hy : Reachable8 L y) (ob : Obl) (hob : ob ∈ y.obls)
+down there — unless a mapping in effect after the step outputs M.
+(Since the fix of D7 without H1: a fired mapping that outputs ANY non-modifier key runs the
+"release action mappings / release absorbed keys" block, so an absorbed M has been released as input before
+the press loop; a fired mapping that outputs modifiers only presses modifiers only.) -/
+theorem C08_partial_ii' (L : Layout) (h2 : H2 L) (y : Sys8) (hy : Reachable8 L y) (ob : Obl) (hob : ob ∈ y.obls)
     (k : Key) (hk : k ∉ y.x.s.inp) (hkt : k ≠ ob.t) (hkM : k ≠ ob.M) :
     c08ii (y.x.obs L (Event.pressed k)) ob = true := by
   have hx := hy.reachableEv.reachable
@@ -546,15 +555,16 @@ theorem C08_partial_ii (L : Layout) (h1 : H1 L) (h2 : H2 L) (y : Sys8) (hy : Rea
     have hV2 : ∀ z, z ∈ foldEvs y.x.V ((consume fm (pressPrep y.x.s k).pass).2.2 ++
         (addPhase2 (afterConsume (pressPrep y.x.s k) fm) k fm).2) ↔
         z ∈ held (addPhase2 (afterConsume (pressPrep y.x.s k) fm) k fm).1 := em2.2
-    cases hact : isActionMapping fm with
+    cases hact : producesActionKey fm with
     | false =>
-      -- H1: a mapping that is not key-producing (its output is empty or ends in a modifier) outputs modifiers only
+      -- the fired mapping outputs modifiers only: only modifiers are pressed
       apply noMAtPresses_modifiers
       intro x hx
       have hxto : x ∈ fm.to := (pressAll_spec _ fm.to d1 (fun _ h => h)).2.2.2.2.2.1 x hx
-      exact h1 fm hfmL hact x hxto
+      exact (producesActionKey_false_iff fm).mp hact x hxto
     | true =>
-      -- key-producing: if M was absorbed, release_absorbed_keys has removed it as input
+      -- it outputs a non-modifier key (fix of D7: wherever that key stands in the output), so the block of
+      -- phase 2 ran: if M was absorbed, release_absorbed_keys has removed it as input
       have hMinp : ob.M ∉ (addPhase2 (afterConsume (pressPrep y.x.s k) fm) k fm).1.inp := by
         rcases hok0 with ⟨ha, hsa⟩ | hn
         · rcases addPhase2_aux_fields (afterConsume (pressPrep y.x.s k) fm) k fm c1 with ⟨_, _, _, _, hinp⟩ | ⟨hnot, _⟩
@@ -606,6 +616,13 @@ theorem C08_partial_ii (L : Layout) (h1 : H1 L) (h2 : H2 L) (y : Sys8) (hy : Rea
             · simp at h3
             · simp only [List.any_eq_true]; exact ⟨m', hm', by simpa using h3⟩
         · left; simpa using hm
+
+/-- `C08_partial_ii'` with its former signature: the hypothesis H1 is no longer used (fix of D7) -/
+theorem C08_partial_ii (L : Layout) (h1 : H1 L) (h2 : H2 L) (y : Sys8) (hy : Reachable8 L y) (ob : Obl) (hob : ob ∈ y.obls)
+    (k : Key) (hk : k ∉ y.x.s.inp) (hkt : k ≠ ob.t) (hkM : k ≠ ob.M) :
+    c08ii (y.x.obs L (Event.pressed k)) ob = true :=
+  have _ := h1
+  C08_partial_ii' L h2 y hy ob hob k hk hkt hkM
 
 /-! ### clause (iii) under H2 -/
 
@@ -738,7 +755,7 @@ theorem fire_suppNow {L : Layout} (h2 : H2 L) {P : List Key} {s : State} (hinv :
   · have hsh : shouldAbsorb (pressPrep s k) k = false := by
       cases hh : shouldAbsorb (pressPrep s k) k with
       | false => rfl
-      | true => rw [← hsa] at hh; exact absurd ⟨hact, hh⟩ hnot
+      | true => rw [← hsa] at hh; exact absurd ⟨producesActionKey_of_isActionMapping fm hact, hh⟩ hnot
     simp only [hsh, Bool.false_eq_true, if_false, List.mem_append, List.mem_singleton, hinp2]
     have e1 : (afterConsume (pressPrep s k) fm).inp = (pressPrep s k).inp := rfl
     rw [e1]
@@ -876,10 +893,11 @@ theorem C08_partial_iii (L : Layout) (h2 : H2 L) (y : Sys8) (hy : Reachable8 L y
   rw [fired_eq hs ob.t hk, findMapping_of_absTrig L y.x.s ob.t hat, hsn]
   simp
 
-/-! ### the full statement restricted to layouts satisfying H1 ∧ H2 -/
+/-! ### the full statement restricted to layouts satisfying H2 -/
 
-/-- C08 for every layout satisfying H1 ∧ H2: the trace monitor accepts every step of every history -/
-theorem C08_partial (L : Layout) (h1 : H1 L) (h2 : H2 L) (y : Sys8) (hy : Reachable8 L y) (e : Event) :
+/-- C08 for every layout satisfying H2: the trace monitor accepts every step of every history
+(since the fix of D7 the hypothesis H1 is gone) -/
+theorem C08_partial' (L : Layout) (h2 : H2 L) (y : Sys8) (hy : Reachable8 L y) (e : Event) :
     monC08 (y.x.obs L e) y.obls = [] := by
   unfold monC08
   cases e with
@@ -908,7 +926,13 @@ theorem C08_partial (L : Layout) (h1 : H1 L) (h2 : H2 L) (y : Sys8) (hy : Reacha
       · have hkt' : k ≠ ob.t := fun e => hkt e.symm
         rw [if_pos hkt]
         simp only [C08_partial_i_monitor L h2 y hy ob hob k hk hkt' hkM,
-          C08_partial_ii L h1 h2 y hy ob hob k hk hkt' hkM, if_true, List.append_nil]
+          C08_partial_ii' L h2 y hy ob hob k hk hkt' hkM, if_true, List.append_nil]
+
+/-- `C08_partial'` with its former signature: the hypothesis H1 is no longer used (fix of D7) -/
+theorem C08_partial (L : Layout) (h1 : H1 L) (h2 : H2 L) (y : Sys8) (hy : Reachable8 L y) (e : Event) :
+    monC08 (y.x.obs L e) y.obls = [] :=
+  have _ := h1
+  C08_partial' L h2 y hy e
 
 /-! ### "M counts again once it has been released and pressed again" (every layout, no hypothesis) -/
 
@@ -1009,7 +1033,7 @@ example :
     findMapping L y.x.s 48 = some ⟨[42, 48], [42, 48], Repeat.normal, [42]⟩ := by
   decide
 
-/-! ### the full statement is false outside H1 ∧ H2 (known findings D6, D7) -/
+/-! ### the full statement is false outside H2 (known finding D6); former finding D7 is fixed -/
 
 def d6Layout : Layout :=
   [⟨[42, 29], [44, 45], Repeat.normal, []⟩, ⟨[42, 46], [29], Repeat.normal, [42]⟩, ⟨[30, 29], [], Repeat.normal, [30]⟩]
@@ -1032,18 +1056,26 @@ def d7Layout : Layout :=
 
 def d7History : List Event := [Event.pressed 30, Event.pressed 46, Event.released 46]
 
-/-- D7: `[LEFTSHIFT] → [Z, LEFTCTRL]` ends in a modifier, so it is treated as a modifier-remapping and
-skips `release_absorbed_keys`: Z goes down while the absorbed A is still down -/
-theorem C08_counterexample_D7 :
+/-- Regression for former finding D7 (FIXED in `add_new_mapping`: the block is entered on
+`produces_action_key(m)`): `[LEFTSHIFT] → [Z, LEFTCTRL]` ends in a modifier (the layout is outside H1, inside
+H2); before the fix it was treated as a modifier-remapping and skipped `release_absorbed_keys`, so Z went
+down while the absorbed A was still down and the monitor returned `["C08:D7"]` on this very step.  Now the
+monitor accepts the step, and the step's events release the absorbed A before Z goes down. -/
+theorem C08_d7_fixed :
     let y := Sys8.run d7Layout Sys8.init d7History
+    layoutH1 d7Layout = false ∧ layoutH2 d7Layout = true ∧
     (y.obls.map fun ob => (ob.M, ob.t)) = [(30, 46)] ∧
-    monC08 (y.x.obs d7Layout (Event.pressed 42)) y.obls = ["C08:D7"] := by
+    y.x.V = [30] ∧
+    monC08 (y.x.obs d7Layout (Event.pressed 42)) y.obls = [] ∧
+    (step d7Layout y.x.s (Event.pressed 42)).2.events =
+      [Event.released 30, Event.pressed 44, Event.pressed 29] := by
   decide
 
+/-- the full statement (every layout) is still false: finding D6 is a different defect and is not fixed -/
 theorem C08_statement_false : ¬ C08_statement := by
   intro h
-  have := h d7Layout _ ⟨d7History, rfl⟩ (Event.pressed 42)
-  rw [C08_counterexample_D7.2] at this
+  have := h d6Layout _ ⟨d6History, rfl⟩ (Event.pressed 29)
+  rw [C08_counterexample_D6.2.1] at this
   simp at this
 
 /-! Non-vacuity of the partial theorem: unit-test layout `absorbing_double_press_test_1`
